@@ -23,9 +23,25 @@ type timeoutIn struct {
 	InBatch bool          `json:"inBatch"` // the wrapped Timeout is one of two Batch members
 }
 
+// runTimeout: a nominally timely step that nevertheless took d or longer means the process was
+// stalled (scheduler, GC, a loaded machine) - or that Timeout is broken.  The case is run again, up
+// to four times; the last attempt is reported whatever it shows, so a real defect still surfaces.
 func runTimeout(raw json.RawMessage) interface{} {
 	var in timeoutIn
 	must(json.Unmarshal(raw, &in))
+	var out map[string]interface{}
+	for attempt := 1; attempt <= 4; attempt++ {
+		o, stalled := runTimeoutOnce(in)
+		out = o
+		out["attempts"] = attempt
+		if !stalled {
+			break
+		}
+	}
+	return out
+}
+
+func runTimeoutOnce(in timeoutIn) (map[string]interface{}, bool) {
 	d := time.Duration(in.D) * time.Millisecond
 	release := make(chan struct{})
 	defer close(release) // lets "never returning" computations end with the case
@@ -49,6 +65,7 @@ func runTimeout(raw json.RawMessage) interface{} {
 		a = carapace.Batch(a, carapace.ActionValues("member")).ToA()
 	}
 	outs := []map[string]interface{}{}
+	stalled := false
 	for i, s := range in.Steps {
 		cur.Store(int64(i))
 		start := time.Now()
@@ -59,13 +76,16 @@ func runTimeout(raw json.RawMessage) interface{} {
 			vals = append(vals, v.Value)
 		}
 		outs = append(outs, map[string]interface{}{"values": vals, "usage": res.Usage, "nospace": res.Nospace, "elapsedMs": elapsed.Milliseconds(), "panic": res.Panic})
+		if s.Dur >= 0 && s.Dur < in.D && elapsed >= d-2*time.Millisecond {
+			stalled = true
+		}
 		time.Sleep(time.Duration(s.Gap) * time.Millisecond)
 	}
-	return map[string]interface{}{"outs": outs}
+	return map[string]interface{}{"outs": outs}, stalled
 }
 
 func genTimeout(r *rng, tier string) interface{} {
-	in := timeoutIn{D: pick(r, []int{20, 30, 40}), Nested: r.chance(20), InBatch: r.chance(25)}
+	in := timeoutIn{D: pick(r, []int{30, 40, 60}), Nested: r.chance(20), InBatch: r.chance(25)}
 	n := 1 + r.intn(3)
 	for i := 0; i < n; i++ {
 		dur := pick(r, []int{0, 0, in.D / 4, in.D * 4, in.D * 3, -1})
